@@ -130,8 +130,11 @@ def to_tree(node):
                  [N("Kw", k.arg, [T(k.value)], k) for k in node.keywords], node)
     if isinstance(node, ast.Attribute):
         return N("Attribute", node.attr, [T(node.value)], node)
-    if isinstance(node, ast.Subscript) and not isinstance(node.slice, ast.Slice):
+    if isinstance(node, ast.Subscript):
         return N("Subscript", "", [T(node.value), T(node.slice)], node)
+    if isinstance(node, ast.Slice):
+        parts = [(c, x) for c, x in (("l", node.lower), ("u", node.upper), ("s", node.step)) if x is not None]
+        return N("Slice", "".join(c for c, x in parts), [T(x) for c, x in parts], node)
     if isinstance(node, ast.Tuple):
         return N("Tuple", "", [T(x) for x in node.elts], node)
     if isinstance(node, ast.List):
@@ -141,6 +144,12 @@ def to_tree(node):
     if isinstance(node, ast.Lambda) and _simple_args(node.args, 1):
         a = node.args.args
         return N("Lambda", a[0].arg if a else "", [T(node.body)], node)
+    if isinstance(node, ast.Lambda) and not (node.args.posonlyargs or node.args.args or node.args.kwonlyargs
+                                             or node.args.defaults) and \
+            (node.args.vararg is None) != (node.args.kwarg is None):
+        star = node.args.vararg or node.args.kwarg
+        kind = "vararg" if node.args.vararg is not None else "kwarg"
+        return N("Lambda", "", [N("arguments", "", [N(kind, star.arg, [], star)], node.args), T(node.body)], node)
     if isinstance(node, ast.Expr):
         return N("Expr", "", [T(node.value)], node)
     if isinstance(node, ast.Assign) and len(node.targets) == 1 and node.type_comment is None:
